@@ -164,6 +164,16 @@ def run(ctx):
               % sorted(pairs_del), key=('P2', 'delete-orientation'), site=ctx.site(dc, dc.node))
     ctx.check(pairs_ins == want, 'P2', 'create_child_sa installs the same (destination, SPI) pairs: %s' % sorted(pairs_ins),
               key=('P2', 'install-orientation'), site=ctx.site(cc, cc.node))
+    # both halves of the pair are deleted on *every* path that returns from delete_child_sa, including the paths on which
+    # the first kernel request fails: an untracked CHILD_SA must not leave its other half installed
+    for n, x in ds:
+        b = bind_args(x, dsa)
+        what = '(%s, %s)' % (src(b['daddr']).split('.')[-1], src(b['spi']).split('.')[-1])
+        ctx.check(gd.exit.id not in gd.reach([gd.entry], blocked_nodes=[n]), 'P2',
+                  'delete_child_sa asks the kernel to delete %s on every path that returns, whatever happened to the other half'
+                  % what, key=('P2', 'delete-half-skipped', what), site=ctx.site(dc, x))
+    ctx.check(len(ds) == 2, 'P2', 'delete_child_sa issues exactly two kernel deletions', key=('P2', 'delete-count', len(ds)),
+              site=ctx.site(dc, dc.node))
     protos = set(src(bind_args(x, dsa)['proto']) for n, x in ds)
     ctx.check(len(protos) == 1, 'P2', 'both deletions use the CHILD_SA\'s IPsec protocol', key=('P2', 'delete-proto'),
               site=ctx.site(dc, dc.node))
